@@ -94,6 +94,21 @@ pub mod io {
         pub page_at: PageFaultAt,
         /// Abort the process instead of failing the operation.
         pub abort: bool,
+        /// For a page write through the I/O pool: let the write be performed, but replace what
+        /// its completion-queue entry reports (see [`CqeFault`]) instead of failing it at the
+        /// seam. `None`: fail as described by `page_at`.
+        pub cqe: Option<CqeFault>,
+    }
+
+    /// What the completion-queue entry of a page write reports to the I/O worker.
+    #[derive(Debug, Clone, Copy)]
+    pub struct CqeFault {
+        /// The raw result: a negative errno, or a byte count (a short write when below 4096).
+        pub result: i32,
+        /// Value left in the worker thread's `errno` by an unrelated earlier syscall.
+        pub stale_errno: Option<i32>,
+        /// How many completions of this write (it may be re-submitted) report `result`.
+        pub times: u32,
     }
 
     struct State {
@@ -104,6 +119,8 @@ pub mod io {
         counts: HashMap<(String, &'static str), u64>,
         fault: Option<Fault>,
         fired: u64,
+        cqe_targets: HashMap<(RawFd, u64), (usize, u32)>,
+        cqe_pending: Option<usize>,
     }
 
     static ENABLED: AtomicBool = AtomicBool::new(false);
@@ -146,6 +163,8 @@ pub mod io {
             counts: HashMap::new(),
             fault: None,
             fired: 0,
+            cqe_targets: HashMap::new(),
+            cqe_pending: None,
         });
         ENABLED.store(true, Ordering::SeqCst);
     }
@@ -181,6 +200,7 @@ pub mod io {
     fn push(s: &mut State, file: String, kind: Kind) -> (usize, bool) {
         let tag = kind.tag();
         let mut fail = false;
+        let mut cqe_hit = false;
         if tag != "mark" {
             let c = s.counts.entry((file.clone(), tag)).or_insert(0);
             let ordinal = *c;
@@ -194,8 +214,13 @@ pub mod io {
                         }
                         std::process::abort();
                     }
-                    fail = true;
-                    s.fired += 1;
+                    if f.cqe.is_some() {
+                        // decided when the completion-queue entry arrives (`on_cqe`)
+                        cqe_hit = hit;
+                    } else {
+                        fail = true;
+                        s.fired += 1;
+                    }
                 }
             }
         }
@@ -210,6 +235,9 @@ pub mod io {
             thread: std::thread::current().name().unwrap_or("?").to_string(),
             injected: fail,
         });
+        if cqe_hit {
+            s.cqe_pending = Some(s.log.len() - 1);
+        }
         (s.log.len() - 1, fail)
     }
 
@@ -321,8 +349,40 @@ pub mod io {
                 return None;
             }
         }
+        if s.cqe_pending.take() == Some(id) {
+            let times = s.fault.as_ref().and_then(|f| f.cqe).map_or(0, |c| c.times);
+            s.cqe_targets.insert((fd, pn), (id, times));
+        }
         s.pending_pages.entry((fd, pn)).or_default().push(id);
         Some(command)
+    }
+
+    /// Called by the I/O worker with the raw result of a completion-queue entry, before it is
+    /// interpreted. Returns the result the worker is to see.
+    pub(crate) fn on_cqe(command: &IoCommand, res: i32) -> i32 {
+        if !is_enabled() {
+            return res;
+        }
+        let (fd, pn) = match &command.kind {
+            IoKind::Read(..) => return res,
+            IoKind::Write(fd, pn, _) | IoKind::WriteArc(fd, pn, _) | IoKind::WriteRaw(fd, pn, _) => {
+                (*fd, *pn)
+            }
+        };
+        let mut g = STATE.lock().unwrap();
+        let Some(s) = g.as_mut() else { return res };
+        let Some(cqe) = s.fault.as_ref().and_then(|f| f.cqe) else { return res };
+        let Some((_, left)) = s.cqe_targets.get_mut(&(fd, pn)) else { return res };
+        if *left == 0 {
+            return res;
+        }
+        *left -= 1;
+        s.fired += 1;
+        if let Some(e) = cqe.stale_errno {
+            // SAFETY: errno is thread-local.
+            unsafe { *libc::__errno_location() = e };
+        }
+        cqe.result
     }
 
     /// Called by the I/O worker right before a completion is delivered.
